@@ -17,6 +17,8 @@
       the merge-patch reader (which sorts since fix 33ee725) produces its hunks in one fixed order.
 -/
 import JdProofs.MapOrder
+import JdProofs.PathSites
+import JdProofs.PathHeapProofs
 
 namespace Jd.Props.C15
 open Jd Jd.MapOrder
@@ -63,5 +65,61 @@ example : ([("b", Json.null), ("a", Json.bool true)] : List (String × Json)).Pe
   constructor
   · exact List.Perm.swap _ _ _
   · decide
+
+/-! ### The renderers edit copies (aliasing discipline on the regenerated table of source sites)
+
+   `Gen.pathSites` is regenerated from the Go source on every run (tools/pathfacts): for every index
+   assignment into, in-place library call on (`slices.Reverse`, `sort.…`), or assignment through a pointer
+   to a path / value slice in v2/ and lib/, the shape of the slice expression. The renderers may only
+   edit COPIES of what the caller's diff holds (defects D11, D12 and D12-lib were exactly violations of
+   this; D12-lib — v1 `RenderMerge` — was FOUND by this table). -/
+
+/-- every slice a renderer edits in place is a copy of the caller's data -/
+theorem renderers_edit_copies_only :
+    (Gen.pathSites.filter Jd.PathSites.isWrite).all Jd.PathSites.ok = true :=
+  Jd.PathSites.renderers_write_copies
+
+/-- the table covers the diff-building files of both libraries and the renderers' in-place edits -/
+theorem alias_table_covers_the_code :
+    (["v2/object.go", "v2/list.go", "v2/set.go", "v2/multiset.go", "v2/diff_common.go", "v2/diff_read.go",
+      "lib/object.go", "lib/list.go", "lib/set.go", "lib/multiset.go", "lib/diff_common.go", "lib/diff_read.go"].all
+        (fun f => Gen.pathSites.any (fun s => s.1.startsWith f && s.2.1 == .store))) = true ∧
+    (["v2/diff_write.go:Diff.RenderPatch", "v2/diff_write.go:Diff.RenderMerge", "lib/diff_write.go:Diff.RenderMerge"].all
+        (fun f => Gen.pathSites.any (fun s => s.1.startsWith f && s.2.1 == .write))) = true :=
+  ⟨Jd.PathSites.table_covers_the_diff_code.1, Jd.PathSites.table_covers_the_diff_code.2.2⟩
+
+/-! ### Go slice semantics = functional model, under the discipline (refinement theorem)
+
+   `PathHeap` (JdModel/PathHeap.lean) is an imperative model of Go slices over backing arrays: `append`
+   writing in place when there is spare capacity, `clone`, `drop`, index assignment; programs are
+   arbitrary nestings of "store in the result / pass to a callee / assign to a slot". For EVERY growth
+   policy, a program whose expressions obey the discipline — exactly what the regenerated table of source
+   sites is checked for above and in JdProps/C01, C17 — stores slices that, read at the END of the run, are
+   the paths of the functional model; the caller's parameter and everything that existed before are
+   unchanged. Witnesses (`PathHeap.Witness.*`): a non-fresh store is overwritten by a sibling at depth 3
+   (the shape of six seeded changes), an unsafe expression or a write through a non-fresh slice changes the
+   caller's data (the shape of D11 / D12 / D12-lib). -/
+
+theorem go_slices_refine_functional_paths (grow : Nat → Nat) (prog : List PathHeap.Act)
+    (hok : PathHeap.Act.okL prog = true) (h : PathHeap.Heap) (s : PathHeap.Slice) (v : s.valid h) :
+    (PathHeap.Act.runL grow s prog h).2.map (PathHeap.read (PathHeap.Act.runL grow s prog h).1)
+        = PathHeap.Act.valsL (PathHeap.read h s) prog ∧
+    PathHeap.read (PathHeap.Act.runL grow s prog h).1 s = PathHeap.read h s ∧
+    (∀ a n, a < h.length → (a ≠ s.arr ∨ n ≤ s.len) →
+      ((PathHeap.Act.runL grow s prog h).1.getD a []).take n = (h.getD a []).take n) :=
+  PathHeap.refinement grow prog hok h s v
+
+/-- a program all of whose sites are in a table that passes the check is disciplined -/
+theorem disciplined_of_table (table : List (PathHeap.SiteKind × PathHeap.SExpr))
+    (htab : table.all (fun p => PathHeap.siteOk p.1 p.2) = true) (prog : List PathHeap.Act)
+    (hsub : ∀ p ∈ PathHeap.Act.sitesL prog, p ∈ table) : PathHeap.Act.okL prog = true :=
+  PathHeap.okL_of_table table htab prog hsub
+
+/-- the shape of the path-alias defects: without the copy, two stored paths read the same at the end -/
+theorem nonfresh_store_is_overwritten :
+    (PathHeap.Act.runL PathHeap.growDouble PathHeap.Witness.s0 PathHeap.Witness.progAlias PathHeap.Witness.h0).2.map
+        (PathHeap.read (PathHeap.Act.runL PathHeap.growDouble PathHeap.Witness.s0 PathHeap.Witness.progAlias PathHeap.Witness.h0).1)
+      ≠ PathHeap.Act.valsL (PathHeap.read PathHeap.Witness.h0 PathHeap.Witness.s0) PathHeap.Witness.progAlias :=
+  PathHeap.Witness.store_nonfresh_aliases
 
 end Jd.Props.C15
